@@ -56,27 +56,11 @@ def analyse_regex(pattern: str, flags: int, mid_start: bool = False):
     return s, a, a.find_eda()
 
 
-def run(ctx, report: Report) -> None:
-    inv = ctx.consts
-    src = ctx.src
-    report.explanation = (
-        'Automata-theoretic decision over the whole regex inventory of the package, folded from the sources: each '
-        'regex is parsed with re._parser (not compiled, not run), turned into an eps-NFA with exact look-ahead '
-        'obligations, and searched for exponential ambiguity (a configuration with two distinct paths over one '
-        'word, found as a non-trivial SCC of the synchronised pair graph). Under the backtracking model of sre, '
-        'absence of EDA bounds the number of paths on an input of length n polynomially. Token progress and the '
-        'scanner loop rule bound the number of token attempts by n x |tokens|.')
-    report.not_decided = 'wall-clock constants; polynomial degree (only reported in the thorough tier).'
-    report.trusted_base = ["re._parser.parse as the regex front end", 'backtracking model of sre (Weideman et al. 2016)',
-                           'mypy inferred receiver types for inventory completeness']
-    report.assumptions = ['re.escape(...) holes of pattern templates are literal text (instantiated with several '
-                          'literal shapes)']
-
-    # ---- R1 ------------------------------------------------------------------------------------------
-    r1 = report.rule('C07-R1', 'no regex has exponential ambiguity (EDA)', floor=29)
+def eda_scan(ctx, r1, regexes):
+    """Exponential-ambiguity analysis of the given inventory regexes; returns (analysed descriptions, derived regexes)."""
     analysed = []
     derived_sources = []
-    for r in inv.regexes:
+    for r in regexes:
         if r.kind == 'derived':
             derived_sources.append(r)
             continue
@@ -114,6 +98,28 @@ def run(ctx, report: Report) -> None:
                              f'prefix {fd["prefix"]!r} the word {fd["pump"]!r} can be read in two ways and pumped; a '
                              f'failing continuation makes sre explore 2^n paths'),
                     prefix=fd['prefix'], pump=fd['pump'], kind=fd['kind'])
+    return analysed, derived_sources
+
+
+def run(ctx, report: Report) -> None:
+    inv = ctx.consts
+    src = ctx.src
+    report.explanation = (
+        'Automata-theoretic decision over the whole regex inventory of the package, folded from the sources: each '
+        'regex is parsed with re._parser (not compiled, not run), turned into an eps-NFA with exact look-ahead '
+        'obligations, and searched for exponential ambiguity (a configuration with two distinct paths over one '
+        'word, found as a non-trivial SCC of the synchronised pair graph). Under the backtracking model of sre, '
+        'absence of EDA bounds the number of paths on an input of length n polynomially. Token progress and the '
+        'scanner loop rule bound the number of token attempts by n x |tokens|.')
+    report.not_decided = 'wall-clock constants; polynomial degree (only reported in the thorough tier).'
+    report.trusted_base = ["re._parser.parse as the regex front end", 'backtracking model of sre (Weideman et al. 2016)',
+                           'mypy inferred receiver types for inventory completeness']
+    report.assumptions = ['re.escape(...) holes of pattern templates are literal text (instantiated with several '
+                          'literal shapes)']
+
+    # ---- R1 ------------------------------------------------------------------------------------------
+    r1 = report.rule('C07-R1', 'no regex has exponential ambiguity (EDA)', floor=29)
+    analysed, derived_sources = eda_scan(ctx, r1, inv.regexes)
     report.analysed['regexes'] = len(inv.regexes)
     report.analysed['regex_variants'] = len(analysed)
 
